@@ -266,9 +266,25 @@ const RT = {
     const bad = '(or (< ' + r.t + ' ' + lit(-P53) + ') (> ' + r.t + ' ' + lit(P53) + '))';
     const res = this.solver.check([this.nameBool(bad)]);
     if (res === 'unsat') { return { t: r.t, lo: r.lo < -P53 ? -P53 : r.lo, hi: r.hi > P53 ? P53 : r.hi, tz: r.tz }; }
-    // the double result is rounded: model it by a fresh integer with the sound facts of IEEE rounding
-    const f = this.fresh('Int', 'rnd');
     this.st.flags.rounded = true;
+    const mx = maxAbs(r);
+    if (mx < (1n << 66n)) {
+      // the double result is rounded to 53 significant bits, ties to even: stated exactly, per binade, in integer arithmetic
+      // (|r| in [2^(53+k), 2^(54+k)): multiples of q = 2^(k+1) are representable; round |r| / q half-to-even)
+      const a = this.def('Int', '(abs ' + r.t + ')');
+      let body = a;
+      for (let k = 12; k >= 0; k--) {
+        const lo = 1n << big(53 + k), q = 1n << big(k + 1), h = q >> 1n;
+        if (lo > mx) continue;
+        const d = '(div ' + a + ' ' + q + ')', m = '(mod ' + a + ' ' + q + ')';
+        const up = '(or (> ' + m + ' ' + h + ') (and (= ' + m + ' ' + h + ') (= (mod ' + d + ' 2) 1)))';
+        body = '(ite (>= ' + a + ' ' + lo + ') (* ' + q + ' (ite ' + up + ' (+ ' + d + ' 1) ' + d + ')) ' + body + ')';
+      }
+      const fr = this.def('Int', '(ite (< ' + r.t + ' 0) (- ' + body + ') ' + body + ')');
+      return { t: fr, lo: r.lo - (r.lo < 0n ? -r.lo : r.lo) / P53 - 1n, hi: r.hi + (r.hi < 0n ? -r.hi : r.hi) / P53 + 1n, tz: 0 };
+    }
+    // beyond 2^66: model the rounded double by a fresh integer with the sound facts of IEEE rounding
+    const f = this.fresh('Int', 'rnd');
     this.assertTerm('(=> (and (<= ' + lit(-P53) + ' ' + r.t + ') (<= ' + r.t + ' ' + lit(P53) + ')) (= ' + f + ' ' + r.t + '))');
     // (sound, deliberately weak: exact inside the safe range, and rounding never crosses +-2^53)
     this.assertTerm('(=> (> ' + r.t + ' ' + lit(P53) + ') (>= ' + f + ' ' + lit(P53) + '))');
